@@ -1,6 +1,7 @@
 import RsModel.Model.Tree
 import RsModel.Props.C01
 import RsModel.Lemmas.AttrTree
+import RsModel.Lemmas.ModeCold
 /-!
 # C13 — composition laws: nesting, neutral elements and wrappers change nothing
 -/
@@ -128,5 +129,13 @@ theorem c13_empty_child_attribution (cons : Text → Option Text) (as bs : List 
     · exact hb c hc
   rw [concatStream_attrN cons _ hmem, concatStream_attrN cons _ hmem2]
   simp [he, attrN]
+
+/-! ## the CachedSource wrapper, first call -/
+
+/-- wrapping a source in a CachedSource whose cache is cold for the option set changes neither the chunk stream nor `map()` -/
+theorem c13_cached_cold (id : Nat) (s : Src) (o : Opts) (σ : Store) (h : σ.get? (id, o) = none) :
+    ((Src.cached id s).stream o σ).1 = (s.stream o σ).1 ∧ ((Src.cached id s).map o σ).1 = (s.map o σ).1 := by
+  simp only [Src.stream, Src.map, h]
+  exact ⟨by first | rfl | trivial, by first | rfl | trivial⟩
 
 end Rs
